@@ -86,6 +86,12 @@ type hook struct {
 	keysMu     sync.RWMutex
 	publicKeys map[string]crypto.PublicKey
 	closing    chan struct{}
+
+	// fetchCtx is cancelled by Stop, so that a fetch in flight ends at once;
+	// done is closed when the refresh goroutine has returned.
+	fetchCtx    context.Context
+	cancelFetch context.CancelFunc
+	done        chan struct{}
 }
 
 // NewHook returns an instance of the JWT middleware.
@@ -95,14 +101,18 @@ func NewHook(cfg Config) (middleware.Hook, error) {
 		cfg:        cfg,
 		publicKeys: map[string]crypto.PublicKey{},
 		closing:    make(chan struct{}),
+		done:       make(chan struct{}),
 	}
+	h.fetchCtx, h.cancelFetch = context.WithCancel(context.Background())
 
 	log.Debug("performing initial fetch of JWKs")
 	if err := h.updateKeys(); err != nil {
+		h.cancelFetch()
 		return nil, errors.New("failed to fetch initial JWK Set: " + err.Error())
 	}
 
 	go func() {
+		defer close(h.done)
 		for {
 			select {
 			case <-h.closing:
@@ -118,7 +128,12 @@ func NewHook(cfg Config) (middleware.Hook, error) {
 }
 
 func (h *hook) updateKeys() error {
-	resp, err := http.Get(h.cfg.JWKSetURL)
+	req, err := http.NewRequestWithContext(h.fetchCtx, http.MethodGet, h.cfg.JWKSetURL, nil)
+	if err != nil {
+		log.Error("failed to fetch JWK Set", log.Err(err))
+		return err
+	}
+	resp, err := http.DefaultClient.Do(req)
 	if err != nil {
 		log.Error("failed to fetch JWK Set", log.Err(err))
 		return err
@@ -160,6 +175,10 @@ func (h *hook) Stop() stop.Result {
 	c := make(stop.Channel)
 	go func() {
 		close(h.closing)
+		// End a fetch that is in flight and wait for the refresh goroutine:
+		// when Stop has completed nothing of this hook is running any more.
+		h.cancelFetch()
+		<-h.done
 		c.Done()
 	}()
 	return c.Result()
